@@ -4,6 +4,8 @@ import Oracle.Mailbox
 namespace Oracle.C01
 
 def suites : List (String × Suite) := [
+  ("dispatchers", Oracle.Mailbox.dispatchSuite),
+  ("mailbox-facts", Oracle.Mailbox.factsSuite),
   ("mailbox", Oracle.Mailbox.model),
   ("mailbox-judge-c01", Oracle.Mailbox.judge true)
 ]
